@@ -22,7 +22,11 @@ Inductive aval :=
 Record ent := { e_name : str;
                 e_attrs : list (str * aval);     (* hasattr(e, a) <-> a is a key *)
                 e_parent : option nat;
-                e_has_url : bool }.              (* get_url() is not None *)
+                e_has_url : bool;                (* get_url() is not None *)
+                e_owns_page : bool;              (* get_dir() is not None: it has a page of its own *)
+                e_visible : bool;                (* getattr(e, "visible", True) *)
+                e_iface_proc : bool }.           (* is_interface_procedure: the procedure of an
+                                                    interface block, shown on the interface's page *)
 
 (* entities are numbered by their position in p_ents *)
 Record proj := { p_ents : list ent;
@@ -174,10 +178,57 @@ Inductive result :=
 Definition find_child_quiet (p : proj) (i : nat) (name : str) (kind : option str) : found :=
   match find_scope p i name kind with ErrV => NotFound | r => r end.
 
+(* FortranBase.page_is_written(): an entity without a page of its own is an anchor on the page
+   of a parent, which is only written if that parent is displayed.  [fuel] bounds the walk up
+   the parents (length of the entity list suffices; parents do not form cycles) *)
+Definition up_parent (p : proj) (e : ent) : option nat :=
+  match e_parent e with
+  | None => None
+  | Some par =>
+    match get_ent p par with
+    | Some pe => if e_iface_proc pe then e_parent pe else Some par
+    | None => Some par
+    end
+  end.
+Definition vis (p : proj) (i : nat) : bool :=
+  match get_ent p i with Some e => e_visible e | None => true end.
+Fixpoint page_is_written (fuel : nat) (p : proj) (i : nat) : bool :=
+  match get_ent p i with
+  | None => true
+  | Some e =>
+    if e_owns_page e then true
+    else match e_parent e with
+         | None => true
+         | Some _ =>
+           match up_parent p e with
+           | None => true
+           | Some par =>
+             if negb (vis p par) then false
+             else match fuel with
+                  | 0 => true
+                  | S f => page_is_written f p par
+                  end
+           end
+         end
+  end.
+(* the test in convert_link: the owner of the item's own page must be visible, and the page its
+   URL points to must be written *)
+Definition displayed (p : proj) (i : nat) : bool :=
+  match get_ent p i with
+  | None => true
+  | Some e =>
+    let owner_visible :=
+      if e_iface_proc e then match e_parent e with Some par => vis p par | None => true end
+      else e_visible e in
+    negb (e_owns_page e && negb owner_visible) && page_is_written (length (p_ents p)) p i
+  end.
+
 Definition finish (p : proj) (f : found) : result :=
   match f with
   | Found i => match get_ent p i with
-               | Some e => if e_has_url e then RLink i else RWarn   (* "Found item ... but no url" *)
+               | Some e => if negb (displayed p i) then RPlain      (* "Not linking ...: not displayed" *)
+                           else if e_has_url e then RLink i
+                           else RWarn                               (* "Found item ... but no url" *)
                | None => RWarn
                end
   | NotFound => RPlain
@@ -372,6 +423,38 @@ Definition item_cands (p : proj) (c : nat) (cn : str) (ck : option str) : option
   end.
 
 Definition nat_in (i : nat) (l : list nat) : bool := existsb (Nat.eqb i) l.
+
+(* An entity is documented (there is a place in the output that a link can lead to) when the
+   entities whose page shows it are displayed: itself if it has a page of its own (the interface,
+   for the procedure of an interface block), otherwise every enclosing entity up to and including
+   the first one that has a page.  A reference that selects an entity which is not documented is
+   plain text: there must be no link to a page that is not written. *)
+Fixpoint shown_on (fuel : nat) (p : proj) (i : nat) : list nat :=   (* the enclosing entities that matter *)
+  match get_ent p i with
+  | None => []
+  | Some e =>
+    match e_parent e with
+    | None => []
+    | Some _ =>
+      match up_parent p e with
+      | None => []
+      | Some par =>
+        par :: match get_ent p par, fuel with
+               | Some pe, S f => if e_owns_page pe then [] else shown_on f p par
+               | _, _ => []
+               end
+      end
+    end
+  end.
+Definition documented (p : proj) (i : nat) : bool :=
+  match get_ent p i with
+  | None => true
+  | Some e =>
+    if e_owns_page e
+    then (if e_iface_proc e then match e_parent e with Some par => vis p par | None => true end
+          else e_visible e)
+    else forallb (vis p) (shown_on (length (p_ents p)) p i)
+  end.
 Definition kind_documented (k : option str) : bool :=
   match k with None => true | Some k' => match comp_kind k' with Some _ => true | None => false end end.
 Definition ckind_documented (k : option str) : bool :=
@@ -381,38 +464,50 @@ Definition ckind_documented (k : option str) : bool :=
   end.
 
 (* is [res] an acceptable rendering of the reference r in the documentation of ctx? *)
+(* a link is acceptable only to a documented entity; plain text is acceptable where the lookup may
+   have selected an entity that is not documented *)
+Definition link_ok (p : proj) (i : nat) (cands : list nat) : bool := nat_in i cands && documented p i.
+Definition plain_ok (p : proj) (cands : list nat) : bool := existsb (fun c => negb (documented p c)) cands.
+
 Definition spec_accepts (p : proj) (ctx : option nat) (r : ref) (res : result) : bool :=
   if negb (kind_documented (r_kind r))
   then (* the word is no component kind.  If it is an item kind and the context or its parent
           contains such an item of that name, the three-level lookup selects it; otherwise
-          nothing is specified (but no abort) *)
+          nothing is specified (but no abort, and no link to an undocumented entity) *)
     match r_child r, comp_cands p ctx r, res with
-    | None, _ :: _, RLink i => nat_in i (comp_cands p ctx r)
+    | None, _ :: _, RLink i => link_ok p i (comp_cands p ctx r)
+    | None, _ :: _, RPlain => plain_ok p (comp_cands p ctx r)
     | None, _ :: _, _ => false
-    | _, _, RLink _ | _, _, RPlain => true
+    | _, _, RLink i => documented p i
+    | _, _, RPlain => true
     | _, _, _ => false
     end
   else if negb (ckind_documented (r_ckind r))
-  then match res with RLink _ | RPlain => true | _ => false end   (* not specified, but no abort *)
+  then match res with RLink i => documented p i | RPlain => true | _ => false end
   else
     let cs := comp_cands p ctx r in
     match r_child r with
     | None =>
       match cs, res with
       | [], RPlain => true
-      | _ :: _, RLink i => nat_in i cs
+      | _ :: _, RLink i => link_ok p i cs
+      | _ :: _, RPlain => plain_ok p cs
       | _, _ => false
       end
     | Some cn =>
       let per := map (fun c => match item_cands p c cn (r_ckind r) with Some l => l | None => [] end) cs in
       let strict := match cs with [] => false | _ => forallb (fun l => negb (Nat.eqb (length l) 0)) per end in
       if strict
-      then match res with RLink i => nat_in i (concat per) | _ => false end
+      then match res with
+           | RLink i => link_ok p i (concat per)
+           | RPlain => plain_ok p (concat per)
+           | _ => false
+           end
       else (* the item is missing from (some of) the candidate components: plain text, or a link
               to something called like the component or like the item *)
         match res with
         | RPlain => true
-        | RLink i => name_eqb (r_name r) (name_of p i) || name_eqb cn (name_of p i)
+        | RLink i => (name_eqb (r_name r) (name_of p i) || name_eqb cn (name_of p i)) && documented p i
         | _ => false
         end
     end.
